@@ -69,6 +69,11 @@ func init() {
 			js = append(js, chunk("main", "prod", pick(tier, 2000, 50000), pick(tier, 2000, 25000), Job{Env: []string{"NO_COLOR=1"}, Timeout: 30 * time.Minute})...)
 			// a process whose working directory was removed under it
 			js = append(js, chunk("main", "prod", pick(tier, 2000, 50000), pick(tier, 2000, 25000), Job{Args: []string{"-x", "cwdgone=1"}, Timeout: 30 * time.Minute})...)
+			// production processes started with DEBUG in their environment (the library reads it for its start-up level): still
+			// production processes - no error dump, no colour across a line break
+			for i, v := range []string{"1", "on"} {
+				js = append(js, Job{Sub: "main", Mode: "prod", From: 3000 * i, To: 3000*i + pick(tier, 1500, 20000), Env: []string{"DEBUG=" + v}, Timeout: 30 * time.Minute})
+			}
 			return js
 		},
 	})
